@@ -635,7 +635,7 @@ pub fn run(ctx: &mut Ctx) -> Result<(), Violation> {
     }
 
     // random functions of 5 and 6 variables through all routes
-    let cases = ctx.tier.pick(2_000, 60_000);
+    let cases = ctx.tier.cases(2_000, 60_000);
     let r = par_random(ctx, "routes-random-5-6-vars", cases, 12, |tape, st| {
         let mut t = Tape::new(tape);
         let k = 5 + t.choose(2);
@@ -654,7 +654,7 @@ pub fn run(ctx: &mut Ctx) -> Result<(), Violation> {
     });
     ctx.stage("routes-random-functions-5-6-vars", false, r)?;
 
-    let cases = ctx.tier.pick(40_000, 3_000_000);
+    let cases = ctx.tier.cases(40_000, 3_000_000);
     let max_ops = ctx.tier.pick(40, 80);
     let r = par_random(ctx, "histories", cases, 400, |tape, st| {
         let mut t = Tape::new(tape);
@@ -692,7 +692,7 @@ pub fn run(ctx: &mut Ctx) -> Result<(), Violation> {
 
     // BDD::<usize>::from(named diagram): the converted diagram is the canonical diagram of the same
     // function over the symbols' ids
-    let cases = ctx.tier.pick(10_000, 300_000);
+    let cases = ctx.tier.cases(10_000, 300_000);
     let r = par_random(ctx, "named-to-usize", cases, 300, |tape, st| {
         let mut t = Tape::new(tape);
         let mut cfg = crate::gen::Cfg::standard(2 + t.choose(5), 1 + t.choose(4));
@@ -710,7 +710,7 @@ pub fn run(ctx: &mut Ctx) -> Result<(), Violation> {
     });
     ctx.stage("named-to-usize-conversion", false, r)?;
 
-    let cases = ctx.tier.pick(40_000, 3_000_000);
+    let cases = ctx.tier.cases(40_000, 3_000_000);
     let r = par_random(ctx, "cross-env-histories", cases, 400, |tape, st| {
         let mut t = Tape::new(tape);
         let opsv = ops::gen_ops(&mut t, max_ops);
